@@ -114,7 +114,9 @@ ASSUMPTIONS = [
 RULE = ("(a) batches of random (T, p_vac, p_vap, kappa, m, k_B, T_l, T_v) incl. T_l = T_v, p_vap = p_vac, kappa = 1; "
         "(b) the 0.01 K grid 123-332 K for the monitored numeric clauses; (c) paired real 1D Snowing runs VISF vs "
         "shelf with random vacuum windows (before nucleation, straddling it, during solidification, beyond t_tot, "
-        "empty, start 0), second runs of a re-pointed object, objects built after another object; (d) a small 2D "
+        "empty, start 0), second runs of a re-pointed object, objects built after another object, the same object "
+        "run twice without any edit and a sequential Nrep = 3 study on one object (every run / repetition against the "
+        "model with the draw of its seed, the published arrays against the flux predicate); (d) a small 2D "
         "pair (height 0.01 m, diameter 0.04 m, ~5000 steps) with the window inside the cooling stage or straddling "
         "nucleation; a run case is non-trivial when both runs complete (a run that raises is a failure)")
 EXPLANATION = ("Lean theorems over the reals about the generated utils formulas and the hand window model + "
@@ -216,8 +218,11 @@ def _tmp_yaml(cfg):
 
 def _published(S):
     """what a finished run publishes through the PUBLIC accessors (numpy arrays; time in hours as published)"""
-    res = S.results
-    return {"stats": {k_: su._num(v) for k_, v in res.iloc[0].to_dict().items()},
+    table = su._table(S)
+    if not isinstance(table, list) or not table:
+        raise BrokenObservation(f"`.results` of a finished run is not a table of rows: {table}")
+    # Nrep > 1 (sequential study): one row per repetition; the arrays are those of the LAST repetition
+    return {"stats": table[-1], "table": table,
             "hours": np.asarray(S.time, float), "temp": np.asarray(S.temp, float),
             "ice": np.asarray(S.iceMassFraction, float), "shelf": np.asarray(S.shelfTemp, float)}
 
@@ -250,8 +255,13 @@ def _run_pair(case):
             rec["stage"] = "init"
             op = OperatingConditions(t_tot=case["t_tot"], cooling={"rate": case["rate"], "start": 20, "end": -50})
             prev = case.get("prev") if conf == "VISF" else None
+            nrep = int(case.get("nrep") or 1)
             if prev is None:
-                S = Snowing(k=dict(k), opcond=op, configPath=path)
+                S = Snowing(k=dict(k), opcond=op, configPath=path, Nrep=nrep)
+                if case.get("rerun") and conf == "VISF":
+                    # object HISTORY without any edit: plain `S.run(); S.run()` - the observed run is the second one
+                    rec["stage"] = "first-run"
+                    S.run()
             else:
                 # object HISTORY: a first run with another VISF configuration (window / kappa / p_vac), then the
                 # configuration file is re-pointed on the USED object (`S.configPath = ...`) and it runs again; the
@@ -264,10 +274,15 @@ def _run_pair(case):
                 S.configPath = path
             rec["S"] = S
             rec["stage"] = "run"
-            S.run()
+            if nrep > 1:
+                S.run(how="sequential")      # repetitions 0..nrep-1 on the one object, seeds 0..nrep-1
+            else:
+                S.run()
             rec["stage"] = "publish"
             rec.update(_published(S))
             rec["stage"] = None
+        except BrokenObservation:
+            raise
         except Exception as e:
             rec["raise"] = core.exc_class(e)
         finally:
@@ -421,7 +436,7 @@ def run_impl(case):
                         obs["runs"][c], obs["stages"][c] = pair[c]["raise"], "publish"
         if V["raise"] is None:
             obs["const"] = V["const"]
-            obs["visf"] = {kk: V[kk] for kk in ("hours", "temp", "ice", "shelf", "stats")}
+            obs["visf"] = {kk: V[kk] for kk in ("hours", "temp", "ice", "shelf", "stats") + (("table",) if "table" in V else ())}
             obs["visf"]["inuc"] = _inuc(V)
         if Sh["raise"] is None:
             obs["shelf"] = {kk: Sh[kk] for kk in ("hours", "temp", "ice", "shelf", "stats")}
@@ -538,8 +553,14 @@ def run_model(drv, case, impl=None):
                   cnTemp=None)
         rec = {"const": {kk: const[kk] for kk in su.CONST_KEYS + su.CONST_SPATIAL if kk in const},
                "xi": su.recorded_xi(), "visf": _configured(case)}
-        out["run"] = su.decode_model(drv.call(su.model_request(c1, rec, Frand=su.recorded_frand(0), old=True,
-                                                               row_stride=int(case.get("row_stride", 1)))))
+        # (a sequential study of Nrep repetitions: repetition i is the single run with the draw of seed i; the
+        # published arrays are those of the last repetition, the results table has one row per repetition)
+        nrep = int(case.get("nrep") or 1)
+        reps = [su.decode_model(drv.call(su.model_request(
+            c1, rec, Frand=su.recorded_frand(i), old=True,
+            row_stride=(int(case.get("row_stride", 1)) if i == nrep - 1 else 10 ** 9)))) for i in range(nrep)]
+        out["run"] = reps[-1]
+        out["reps"] = [{"raise": r["raise"], "stats": r["stats"]} for r in reps]
         # (2) the hand window model (EvapWindow.lean, the model of the q_e theorems), step by step on EVERY cooling row
         try:
             out["steps"] = _model_steps(drv, case, impl)
@@ -619,9 +640,15 @@ def compare(case, impl, model):
         if m["raise"]:
             dis.append(f"the 1D model raises {m['raise']} ({m.get('stage')}) where the real VISF run completes")
             return dis
-        for key, val in m["stats"].items():
-            if not close(v["stats"].get(key), val):
-                dis.append(f"results[{key}]: real VISF run {v['stats'].get(key)!r} vs model {val!r}")
+        if len(v["table"]) != len(model["reps"]):
+            dis.append(f"results table: real study {len(v['table'])} rows vs model {len(model['reps'])} repetitions")
+        for i, (row, mr) in enumerate(zip(v["table"], model["reps"])):
+            if mr["raise"]:
+                dis.append(f"repetition {i}: the 1D model raises {mr['raise']} where the real study completes")
+                continue
+            for key, val in mr["stats"].items():
+                if not close(row.get(key), val):
+                    dis.append(f"results[{key}] of run/repetition {i}: real VISF run {row.get(key)!r} vs model {val!r}")
         for nm, x, y in (("time", v["hours"], m["time"]), ("shelfTemp", v["shelf"], m["shelf"])):
             y = np.asarray(y, float)
             if x.shape != y.shape:
@@ -987,6 +1014,21 @@ def _history_case(rng, k):
     return b
 
 
+def _rerun_case(rng, k):
+    """object HISTORY without any edit in between: k even - plain `S.run(); S.run()` on the one VISF object (the second
+    run is observed); k odd - a sequential study of Nrep = 3 repetitions on the one object (every repetition's
+    statistics and the arrays of the last one are observed).  Every run / repetition must evaporate inside the
+    configured window exactly like a fresh object's run with the same random draw."""
+    b = _window_case(rng, ["early", "straddle", "solid"][(k // 2) % 3])
+    if k % 2 == 0:
+        b["rerun"] = True
+        b["cls"] = "history:run-twice:" + b["cls"]
+    else:
+        b["nrep"] = 3
+        b["cls"] = "history:sequential-Nrep3:" + b["cls"]
+    return b
+
+
 def _cross_object_case(rng, k):
     """object A (file overriding every VISF entry) is built first; the observed object B comes from a file that omits
     kappa / p_vac (k even) or the whole VISF section (k odd: default window 0.75 h + 0.1 h) and must get the defaults"""
@@ -1044,6 +1086,8 @@ def _cases_rest(rng, tier, n_utils, n_win):
         yield _history_case(rng, k + (core.env_seed() % 4))
     for k in range(2 if tier == "quick" else 12):
         yield _cross_object_case(rng, k)
+    for k in range(2 if tier == "quick" else 12):
+        yield _rerun_case(rng, k + 2 * (core.env_seed() % 3))
 
 
 def widen(rng, tier):
